@@ -322,6 +322,7 @@ def classify_diff(d, trig):
             for f in LOSSY:
                 if f in t: return f
     if k == "px-resolution" and "px-not-scanned" in trig: return "px-not-scanned"
+    if k in ("implicit-end", "time-presence") and "negative-time" in trig: return "negative-time"
     return None
 
 
@@ -553,7 +554,7 @@ def main():
                            f"Definition c2_{i} := case_rt_values [{';'.join(vl)}].\n"))
         rt_info.append(rec)
         # snapshots: only when every offset is representable and nothing structural differs
-        if exact and not diffs and not neg and not (trig & {"transparent-background", "px-not-scanned"}):
+        if exact and not diffs and not neg and not (trig & {"transparent-background", "px-not-scanned", "shear-clamped"}):
             import ttconv.isd as I
             try:
                 ts = sorted(set(I.ISD.significant_times(doc)))
